@@ -116,6 +116,9 @@ func evChild(c *vf.Ctx, part int, race bool, only string, onlyNo int) {
 		}
 		return
 	}
+	if part == 0 {
+		env.reentrantAll(-1)
+	}
 	for r := 0; r < rounds; r++ {
 		for _, k := range kinds {
 			env.round(k, part*1000000+r)
@@ -125,6 +128,8 @@ func evChild(c *vf.Ctx, part int, race bool, only string, onlyNo int) {
 
 func (e *evEnv) round(kind string, no int) {
 	switch kind {
+	case "reentrant":
+		e.reentrantAll(no)
 	case "dyn":
 		e.roundDyn(no, false)
 	case "dyn-pooled":
